@@ -76,6 +76,15 @@ def run(ctx):
                 rom = MAP_ROM[mapping]
                 pr = gen_program.generate(rng, drv, rom=rom, features={"incbin": False, "usermap": False})
                 defines = [("DEF_A", rng.randrange(0, 0x100)), ("DEF_B", rng.randrange(0x100, 0xFFFF))][:ndef]
+                # on the command line VALUE is an expression over what is already defined (earlier -D items included)
+                cli_defs = list(defines)
+                form = rng.randrange(4)
+                if ndef and form == 1:
+                    cli_defs[0] = ("DEF_A", "0x%x" % defines[0][1])
+                if ndef == 2 and form >= 2:
+                    a, b = defines[0][1], defines[1][1]
+                    cli_defs[1] = ("DEF_B", [f"DEF_A+{b - a}", f"(DEF_A<<4)+{b - (a << 4)}" if b >= (a << 4) else f"{b + a}-DEF_A"][form - 2])
+                    assert eval(cli_defs[1][1].replace("DEF_A", str(a))) == b
                 src = pr["src"]
                 if ndef:
                     src += "*=0x%06x\n" % ({"low_rom": 0x1F8000, "low_rom_2": 0x9F8000, "high_rom": 0xCF0000}[rom]) + "".join(f".dw {k}\nlda.w #{k} + 1\n" for k, _ in defines)
@@ -119,11 +128,12 @@ def run(ctx):
                         rep, data, _, labels = frontends.file_api("assemble" if fmt == "sfc" else "patch", src, run_.tmp, mapping=mapping, copier=copier, defines=defines)
                     else:
                         cli_budget -= 1
-                        rep, data, _, err = frontends.cli(src, run_.tmp, fmt=fmt, mapping=mapping, copier=copier, defines=defines)
+                        rep, data, _, err = frontends.cli(src, run_.tmp, fmt=fmt, mapping=mapping, copier=copier, defines=cli_defs)
+                        s.count("cli-define-form:" + ("plain", "hex", "earlier-name+", "earlier-name-expr")[form] if ndef else "cli-define-form:none")
                     s.cases += 1
                     s.nontrivial.add((fmt, mapping, copier, ndef, e))
                     s.count(f"{e}:{fmt}:{mapping}:{'copier' if copier else 'plain'}:D{ndef}")
-                    inp = {"format": fmt, "mapping": mapping, "copier": copier, "defines": defines, "entry": e, "src": src}
+                    inp = {"format": fmt, "mapping": mapping, "copier": copier, "defines": cli_defs if e == "cli" else defines, "entry": e, "src": src}
                     if not rep.startswith("status 0") or data is None:
                         s.violate(inp, "status 0 and an output file", (rep, (err if e == "cli" else "")[-200:]), "a program that assembles in memory fails through this front end / option combination")
                         continue
